@@ -2,7 +2,6 @@ SPECIFICATION Spec
 CONSTANTS
   MODE = "stages"
   SEED = 1
-  ROUND = 1
   T1 = 1
   T2 = 0
   T3 = 0
